@@ -79,11 +79,12 @@ def run(ck):
     s = ck.harness(hb, ["replay", "shrexeds", allc, "--seed", ck.seed], "replay")
     ck.absorb(s, classify)
     ex = s.get("extra", {})
-    if not ex.get("accepted"):
-        raise vf.ToolError("vacuity: no payload was accepted by the decoder")
-    for stage in ("empty", "len", "shape", "dah"):
-        if not ex.get("reject_stages", {}).get(stage):
-            raise vf.ToolError(f"vacuity: no rejection at stage {stage}")
+    if not ck.violations and not ck.known_hits:  # (a violating tree may well lack an outcome class)
+        if not ex.get("accepted"):
+            raise vf.ToolError("vacuity: no payload was accepted by the decoder")
+        for stage in ("empty", "len", "shape", "dah"):
+            if not ex.get("reject_stages", {}).get(stage):
+                raise vf.ToolError(f"vacuity: no rejection at stage {stage}")
     ck.cov["exhaustive"] = True
     ck.cov["rule"] = ("every case generated by TLC for the ODS widths " + ",".join(map(str, gen_ks)) + " (payload mutation x "
                       "header x app-version classes), each run under every concrete app version of the class; non-trivial "
